@@ -181,13 +181,31 @@ func (e *Engine) emitWith(st *State, name, sub string, extraHyps []T, goal T, te
 		b.WriteString("\n")
 	}
 	e.writeDistinct(&b)
+	var body strings.Builder
 	for _, h := range st.Hyps {
-		fmt.Fprintf(&b, "(assert %s)\n", h.S)
+		fmt.Fprintf(&body, "(assert %s)\n", h.S)
 	}
 	for _, h := range extraHyps {
-		fmt.Fprintf(&b, "(assert %s)\n", h.S)
+		fmt.Fprintf(&body, "(assert %s)\n", h.S)
 	}
-	fmt.Fprintf(&b, "(assert (not %s))\n(check-sat)\n", goal.S)
+	fmt.Fprintf(&body, "(assert (not %s))\n(check-sat)\n", goal.S)
+	// function values built from a function or a function literal are never nil (stated only for those the query
+	// mentions: every extra constant makes model finding for failing goals slower)
+	if len(e.closures) > 0 {
+		bs := b.String() + body.String()
+		var ks []string
+		for k := range e.closures {
+			// mentioned somewhere besides its own declaration (hypotheses, goal or a heap update)
+			if strings.HasPrefix(k, "fn_") && strings.Count(bs, k) >= 2 {
+				ks = append(ks, k)
+			}
+		}
+		sort.Strings(ks)
+		for _, k := range ks {
+			fmt.Fprintf(&b, "(assert (not (= %s nil_Fn)))\n", k)
+		}
+	}
+	b.WriteString(body.String())
 	pathSeq[name]++
 	q := &Query{Name: name, Sub: fmt.Sprintf("p%d%s", pathSeq[name], sub), Text: b.String(), Goal: text, Pos: pos, Func: e.curFn, Exit: e.curExit}
 	q.Props = append(q.Props, props...)
